@@ -7,6 +7,7 @@
 (*   LIB    one JSON object  {hash: class table of one module}             *)
 (*   TRACE  ndjson, one program per line:                                  *)
 (*          {"id","origin","entry","front","mods":{module: hash},          *)
+(*           "regions":[syntactic regions of recorded findings present],   *)
 (*           "builds":{"opt:0"|"opt:31": {"status","wasm":{out,end},"ts"}}}*)
 (*          (the records of `vh run-programs` joined with `vh ast-dump`)   *)
 (*   BUDGET nodes the evaluator may visit per program                      *)
@@ -32,7 +33,8 @@ Rec == ndJsonDeserialize(IOEnv.TRACE)
 Lib == JsonDeserialize(IOEnv.LIB)
 N == Len(Rec)
 Budget == atoi(IOEnv.BUDGET)
-Known == IOEnv.KNOWN
+\* recorded (open) findings, by region name; KNOWN = ",region,region,"
+KnownRegion(x) == \E i \in 1..(Len(IOEnv.KNOWN) - Len(x) - 1) : SubSeq(IOEnv.KNOWN, i, i + Len(x) + 1) = "," \o x \o ","
 Profile == IOEnv.PROFILE = "1"
 
 Has(r, f) == f \in DOMAIN r
@@ -69,6 +71,7 @@ Verdict(r, v, why, spec) ==
   IF Profile THEN [id |-> r.id, verdict |-> v, why |-> why, n |-> spec.n, seen |-> spec.seen]
   ELSE [id |-> r.id, verdict |-> v, why |-> why, n |-> spec.n]
 NoRun == [n |-> 0, seen |-> {}]
+WithDetail(v, detail) == [x \in DOMAIN v \cup {"detail"} |-> IF x = "detail" THEN detail ELSE v[x]]
 
 Judge(r) ==
   IF r.front # "accepted" THEN Verdict(r, "skipped", "front:" \o r.front, NoRun)
@@ -89,9 +92,17 @@ Judge(r) ==
                    specEnd |-> spec.end, gotEnd |-> ObservedEnd("wasm", run.end),
                    ts |-> TsAgrees(r, spec)]
     IN IF alt.end.k \in {"return", "panic", "vecbounds"} /\ AllWasmAgree(r, alt)
-       THEN [id |-> r.id, verdict |-> IF Known = "callee-order" THEN "known" ELSE "violation",
-             why |-> "callee-order", n |-> spec.n, detail |-> detail]
-       ELSE [id |-> r.id, verdict |-> "violation", why |-> "run differs", n |-> spec.n, detail |-> detail]
+       THEN WithDetail(Verdict(r, IF KnownRegion("callee-order") THEN "known" ELSE "violation", "callee-order", spec), detail)
+       \* the recorded finding: a struct pattern naming the fields out of declaration order
+       ELSE IF Has(r, "regions") /\ \E i \in 1..Len(r.regions) : r.regions[i] = "objpat-order"
+       THEN WithDetail(Verdict(r, IF KnownRegion("objpat-order") THEN "known" ELSE "violation", "objpat-order", spec), detail)
+       \* the recorded finding: only the loop optimisations change the behaviour (the build with
+       \* every other optimisation, opt:27, and the unoptimised build run as specified)
+       ELSE IF /\ {"opt:0", "opt:27", "opt:31"} \subseteq WasmBuilds(r)
+               /\ SameRun(spec, "wasm", r.builds["opt:0"].wasm)
+               /\ SameRun(spec, "wasm", r.builds["opt:27"].wasm)
+       THEN WithDetail(Verdict(r, IF KnownRegion("loop-opt") THEN "known" ELSE "violation", "loop-opt", spec), detail)
+       ELSE WithDetail(Verdict(r, "violation", "run differs", spec), detail)
 
 VARIABLES l, res
 Pending == [id |-> -1, verdict |-> "pending", why |-> "", n |-> 0]
